@@ -140,3 +140,33 @@ fn block_on_stop_then_wake_gives_none() {
     let r = el.block_on(ReadyWhen(flag, slot), &mut (), |_| {}).unwrap();
     assert_eq!(r, None, "stop() requested from a callback before the wake: None");
 }
+
+/// a wake-up must cut the wait short also when a timer is armed and its deadline is what bounds the wait
+#[test]
+fn wakeup_and_stop_are_prompt_while_a_timer_bounds_the_wait() {
+    use calloop::timer::{TimeoutAction, Timer};
+    // (1) wake-up issued before the wait begins
+    let mut el: EventLoop<u32> = EventLoop::try_new().unwrap();
+    el.handle().insert_source(Timer::from_duration(Duration::from_secs(3)), |_, _, n: &mut u32| { *n += 1; TimeoutAction::Drop }).unwrap();
+    el.get_signal().wakeup();
+    let mut n = 0;
+    let t = Instant::now();
+    el.dispatch(None, &mut n).unwrap();
+    assert!(t.elapsed() < Duration::from_secs(1), "wakeup() before dispatch(None) did not end the wait ({:?})", t.elapsed());
+    assert_eq!(n, 0);
+    // (2) wake-up from another thread during the wait
+    let sig = el.get_signal();
+    let th = std::thread::spawn(move || { std::thread::sleep(Duration::from_millis(100)); sig.wakeup(); });
+    let t = Instant::now();
+    el.dispatch(Duration::from_secs(10), &mut n).unwrap();
+    assert!(t.elapsed() < Duration::from_secs(1), "wakeup() during the wait did not end it ({:?})", t.elapsed());
+    th.join().unwrap();
+    // (3) stop + wakeup end run()
+    let sig = el.get_signal();
+    let th = std::thread::spawn(move || { std::thread::sleep(Duration::from_millis(100)); sig.stop(); sig.wakeup(); });
+    let t = Instant::now();
+    el.run(None, &mut n, |_| {}).unwrap();
+    assert!(t.elapsed() < Duration::from_secs(1), "stop()+wakeup() did not end run() ({:?})", t.elapsed());
+    th.join().unwrap();
+    assert_eq!(n, 0, "the 3 s timer fired early");
+}
